@@ -158,8 +158,39 @@ LANGUAGES = Contract(
 LANGUAGES.observable_only = True   # a regex deviation counts only if a witness word misbehaves on the real router
 
 
+# ----- convertors whose conversion is plain Python (str, int, any): the real to_string / to_python under contract
+def _conv(cls, meth, **kw):
+    return Contract(id="conv.%s.%s" % (cls, meth), file=RT, qualname="%s.%s" % (cls, meth), props=["C08"],
+                    ufuncs={"int_ok": ([Str], Bool), "int_of": ([Str], Int)}, **kw)
+
+
+CONV_CONTRACTS = [
+    _conv("StringConvertor", "to_python", params={"self": ObjT(RT + ":StringConvertor"), "value": Str}, returns=Str,
+          raises={}, ensures={"identity": "result == value"}),
+    _conv("StringConvertor", "to_string", params={"self": ObjT(RT + ":StringConvertor"), "value": Str}, returns=Str,
+          raises={"ValueError": "value == '' or has(value, '/')"},
+          # (a word of [^/]+ is a non-empty string without '/': stated that way - neither solver connects Contains with
+          # the complement class of the regex)
+          ensures={"identity": "result == value", "in_language": "result != '' and not has(result, '/')"},
+          canaries={"never_returns": "False"}),
+    _conv("IntegerConvertor", "to_string", params={"self": ObjT(RT + ":IntegerConvertor"), "value": Int}, returns=Str,
+          raises={"ValueError": "value < 0"},
+          ensures={"in_language": "inre(result, '[0-9]+')", "round_trip": "int_ok(result) and int_of(result) == value"},
+          canaries={"never_returns": "False"}, assumptions=["A-int-1"]),
+    _conv("IntegerConvertor", "to_python", params={"self": ObjT(RT + ":IntegerConvertor"), "value": Str}, returns=Int,
+          requires=["inre(value, '[0-9]+')", "int_ok(value)"],     # the placeholder's language (A-int-1: digits parse)
+          raises={}, ensures={"value": "result == int_of(value)"}, assumptions=["A-int-1"]),
+    _conv("AnyConvertor", "to_python", params={"self": ObjT(RT + ":AnyConvertor"), "value": Str}, returns=Str,
+          raises={}, ensures={"identity": "result == value"}),
+    _conv("AnyConvertor", "to_string", params={"self": ObjT(RT + ":AnyConvertor"), "value": Str}, returns=Str,
+          raises={}, ensures={"identity": "result == value"}),
+]
+
+
 def register(reg):
     for c in (ROUTER_SEARCH, A_ROUTER_CALL, W_ROUTER_CALL, LANGUAGES):
+        reg.add(c)
+    for c in CONV_CONTRACTS:
         reg.add(c)
     reg._opaque_method[("Route", "matches")] = route_matches_method
     reg._opaque_attr[("Route", "endpoint")] = route_endpoint_attr
